@@ -43,6 +43,7 @@ ALPHABET = [
     {"op": "write", "rows": [["b", "x"], ["c", "y"], ["d", "x"]], "close": True},
     {"op": "validate", "limit": 0, "table": CLEAN},
     {"op": "write", "rows": [], "close": True},      # an empty export: the end check sees no rows at all
+    {"op": "rows", "mode": "yield", "limit": None, "table": [["k" * 300, "x"], ["b", "y"], ["k" * 300, "y"]]},   # very long key values
 ]
 # an earlier run left unfinished and finalized in the middle of this one (after j outputs)
 LATE = [
